@@ -89,6 +89,7 @@ def encRes (enc : α → Json) : Res α → Json
 /-- the concrete validators of the correspondence run: bounds on ints, lengths of str/list/tuple/dict -/
 def atomInt (a : String) : Option Int :=
   match Json.parse a with
+  | .ok (.bool b) => some (if b then 1 else 0)      -- bool is an int in Python
   | .ok j => match obj? j "i" with
     | some (.str s) => s.toInt?
     | _ => none
